@@ -52,6 +52,8 @@ pub struct Profile {
     pub adapters: u32,
     /// weight of signal operations
     pub signals: u32,
+    /// how much more often run() / block_on() replace a plain dispatch
+    pub run_bias: u64,
 }
 
 pub fn profile(name: &str) -> Profile {
@@ -80,6 +82,7 @@ pub fn profile(name: &str) -> Profile {
         err_returns: false,
         adapters: 0,
         signals: 0,
+        run_bias: 1,
     };
     match name {
         "C01" => Profile { name: "C01", w_token: 8, reuse_bias: 4, kinds: [4, 3, 3, 4, 1, 0, 0, 5, 0], w_cause: 10, err_returns: true, ..base },
@@ -95,6 +98,7 @@ pub fn profile(name: &str) -> Profile {
         "C19" => Profile { name: "C19", kinds: [1, 0, 1, 0, 0, 0, 0, 0, 0], signals: 14, w_token: 4, max_sources: 3, ..base },
         "C18" => Profile { name: "C18", kinds: [1, 0, 1, 1, 0, 0, 0, 0, 10], w_token: 9, w_cause: 10, ..base },
         "C17" => Profile { name: "C17", kinds: [1, 0, 1, 2, 0, 8, 0, 0, 0], adapters: 12, w_cause: 10, max_sources: 5, natural_faults: true, err_returns: true, ..base },
+        "C11" => Profile { name: "C11", kinds: [3, 2, 3, 2, 0, 1, 0, 0, 0], w_dispatch: 12, w_misc: 5, run_bias: 5, ..base },
         "C12" => Profile { name: "C12", kinds: [2, 1, 8, 1, 0, 0, 0, 0, 0], w_dispatch: 10, w_advance: 5, w_cause: 3, ..base },
         "C13" => Profile { name: "C13", w_idle: 10, err_returns: true, ..base },
         "C15" => Profile { name: "C15", adapters: 3, faults: false, scripted_faults: true, natural_faults: true, err_returns: true, kinds: [3, 2, 3, 6, 0, 0, 0, 0, 0], ..base },
@@ -515,7 +519,9 @@ impl G {
             }
             2 => self.cause_op().into_iter().collect(),
             3 => {
-                if self.rng.chance(1, 12) {
+                if self.rng.chance(self.p.run_bias, 24) {
+                    vec![Op::BlockOn { pendings: self.rng.below(4) as u32, self_wake: self.rng.chance(2, 3), max_iters: self.rng.range(1, 6) as u32 }]
+                } else if self.rng.chance(self.p.run_bias, 12) {
                     vec![Op::Run { timeout: self.timeout(), iters: self.rng.range(1, 4) as u32 }]
                 } else {
                     vec![Op::Dispatch(self.timeout())]
